@@ -369,6 +369,13 @@ impl Instance {
         let lower = bound.lower.ceil();
         let u_l = upper - lower;
         ensure!(
+            !u_l.is_infinite(),
+            "Bound must be finite for log-encoding: ID={}, lower={}, upper={}",
+            decision_variable_id,
+            bound.lower,
+            bound.upper
+        );
+        ensure!(
             u_l >= 0.0,
             "No feasible integer found in the bound: ID={}, lower={}, upper={}",
             decision_variable_id,
